@@ -1314,7 +1314,7 @@ class ValueObject(Value):
 
     def asList(self):
         result = ValueList()
-        for value in self.value.values:
+        for value in self.value.values():
             result.addItem(value)
         return result
 
